@@ -18,7 +18,7 @@ def mutate_text(rng, text):
     lines = text.split('\n')
     body = [i for i, l in enumerate(lines) if l.strip() and not l.strip().startswith('#')]
     k = rng.choice(['delete', 'duplicate', 'swap', 'rename', 'truncate', 'indent', 'scalar2seq', 'scalar2map', 'badhex', 'range', 'empty', 'dupid', 'alias', 'multidoc',
-                    'missing', 'emptyfile', 'noise', 'tab', 'flow', 'longscalar', 'nullvalue', 'delblock', 'dupvalue', 'dupvalue'])
+                    'missing', 'emptyfile', 'noise', 'tab', 'flow', 'longscalar', 'nullvalue', 'delblock', 'dupvalue', 'dupvalue', 'extrakey', 'extrakey'])
     if k == 'missing':
         return None, k
     if k == 'emptyfile':
@@ -84,6 +84,23 @@ def mutate_text(rng, text):
             lines[a] = lines[a].split(':', 1)[0] + ':' + lines[b].split(':', 1)[1]
         else:
             lines.insert(i, l)
+    elif k == 'extrakey':
+        # preferably behind the LAST attribute of an element (the next line closes it or starts the next list item)
+        def indent(x):
+            return len(lines[x]) - len(lines[x].lstrip())
+        ends = [body[q] for q in range(len(body)) if q + 1 == len(body) or indent(body[q + 1]) < indent(body[q]) or lines[body[q + 1]].lstrip().startswith('- ')]
+        if ends and rng.random() < 0.6:
+            i = rng.choice(ends)
+            l = lines[i]
+        # an additional attribute behind an existing one (the documented layout tolerates extra scalars in some places): scalar, well-formed
+        # nested list / mapping, and nested values that are themselves broken YAML (unterminated flow collection, bad nesting, block forms)
+        ind = l[:len(l) - len(l.lstrip())]
+        if l.lstrip().startswith('- '):
+            ind += '  '
+        ind = ind[:max(0, len(ind) - 2 * rng.choice([0, 0, 1, 2, 3]))]      # an attribute of the element itself or of one of the enclosing ones
+        val = rng.choice(['x', '0x01', '[w1, w2]', '{a: b}', '[w1, w2', '{a: b', '[a, [b, c]', '{a: {b: c}', 'a: b: c', '[1, 2]]', '"unterminated', '[', '{', '- x',
+                          '\n' + ind + '  - w1\n' + ind + '  - w2', '\n' + ind + '  a: 1\n' + ind + '  b: [1, 2', '\n' + ind + '    k: v\n' + ind + '  j: w', '!!binary |\n' + ind + '  ====', '&a [*a]'])
+        lines.insert(i + 1, ind + rng.choice(['extra', 'wagons', 'note', 'length', 'id', 'type']) + ': ' + val)
     elif k == 'alias':
         lines[i] = l.replace(': ', ': &anc ', 1) if rng.random() < 0.5 else (l.split(':', 1)[0] + ': *anc' if ':' in l else '- *anc')
     elif k == 'multidoc':
